@@ -73,75 +73,75 @@ pub(crate) mod verif_string {
 
 
     // =====================================================================================
-    // C16: substr's index arithmetic for ALL i64 start / length and ALL character counts, with the std
-    // iterator chain by contract. Assumed contract on std (trusted, stated in the evidence):
-    //   * `s.chars().count()` is the number of characters of s;
-    //   * `s.chars().skip(a).take(b).collect::<String>()` is the characters a .. min(a+b, len) of s.
-    // The stubs do not iterate: `count` returns a planned symbolic character count L, `from_iter` records
-    // the (skip, take) pair the code asked for by reading the adapter structs (layout validated by
-    // K:C16.substr.adapter_layout on every run) and the harness compares them with the spec slice.
+    // C16: substr for ALL i64 start / length over an ABSTRACT string of L <= 3 characters.
+    // std's `Chars` is replaced by a contract stub that behaves as the character iterator of a string whose
+    // i-th character is ('a' + i) and which has L characters (L symbolic): `next` yields them in order,
+    // `count` is the number left. The adapters Skip / Take / collect and String::from_iter are the REAL std
+    // code running on top of it, so the output string is the real output for such a string. The concrete
+    // String operand has a different BYTE length (it is "\u{e4}\u{e4}\u{e4}\u{e4}\u{e4}": 5 chars, 10 bytes), so
+    // a body that measures bytes, or the real string, disagrees with L.
+    // Assumed contract (trusted): the real `Chars` of a string with these characters behaves like the stub.
     // =====================================================================================
-    pub(crate) static mut SS_COUNT_CALLS: u32 = 0;
-    pub(crate) static mut SS_L: usize = 0;
-    pub(crate) static mut SS_COLLECT_CALLS: u32 = 0;
-    pub(crate) static mut SS_SKIP: usize = 0;
-    pub(crate) static mut SS_TAKE: usize = 0;
-    pub(crate) static mut SS_PTR: usize = 0;
-    pub(crate) static mut SS_END: usize = 0;
-    /// field order of Take<Skip<Chars>> as 4 machine words, established by the layout harness
-    pub(crate) const W_PTR: usize = 0;
-    pub(crate) const W_END: usize = 1;
-    pub(crate) const W_SKIP: usize = 2;
-    pub(crate) const W_TAKE: usize = 3;
-
-    pub(crate) fn chars_count_stub(c: std::str::Chars<'_>) -> usize {
-        let w: [usize; 2] = unsafe { std::mem::transmute_copy(&c) };
-        unsafe {
-            SS_COUNT_CALLS += 1;
-            SS_PTR = w[0];
-            SS_END = w[1];
-            SS_L
+    pub(crate) static mut CH_L: usize = 0;
+    pub(crate) static mut CH_POS: usize = 0;
+    pub(crate) static mut CH_COUNT_CALLS: u32 = 0;
+    /// carrier for the stubs: a method of an `impl<'a>` has the same (early-bound) lifetime parameter as
+    /// `impl<'a> Iterator for Chars<'a>`, which Kani requires of a stub
+    pub(crate) struct CharsContract<'a>(std::marker::PhantomData<&'a ()>);
+    impl<'a> CharsContract<'a> {
+        pub(crate) fn next(_c: &mut std::str::Chars<'a>) -> Option<char> {
+            unsafe {
+                if CH_POS < CH_L {
+                    CH_POS += 1;
+                    Some((b'a' + (CH_POS - 1) as u8) as char)
+                } else {
+                    None
+                }
+            }
+        }
+        pub(crate) fn advance_by(_c: &mut std::str::Chars<'a>, n: usize) -> Result<(), std::num::NonZero<usize>> {
+            unsafe {
+                let left = CH_L - CH_POS;
+                if n <= left {
+                    CH_POS += n;
+                    Ok(())
+                } else {
+                    CH_POS = CH_L;
+                    Err(std::num::NonZero::new(n - left).unwrap())
+                }
+            }
+        }
+        pub(crate) fn count(_c: std::str::Chars<'a>) -> usize {
+            unsafe {
+                CH_COUNT_CALLS += 1;
+                CH_L - CH_POS
+            }
         }
     }
-    pub(crate) fn from_iter_stub<I: IntoIterator<Item = char>>(iter: I) -> String {
-        assert!(std::mem::size_of::<I>() == 4 * std::mem::size_of::<usize>(), "collect() called on something other than Take<Skip<Chars>>");
-        let w: [usize; 4] = unsafe { std::mem::transmute_copy(&iter) };
-        std::mem::forget(iter);
+
+    /// `String::reserve` only guarantees capacity; with a symbolic amount it makes CBMC
+    /// model a realloc/memcpy of symbolic size (measured: solver > 140 s then error)
+    pub(crate) fn string_reserve_stub(s: &mut String, _additional: usize) {
+        // a concrete amount (the abstract string has at most 3 one-byte characters; a later push asks again)
+        unsafe { s.as_mut_vec() }.reserve_exact(4);
+    }
+
+    /// `quad`: 0 = all i64; 1..4 = sign quadrant of (start, length): 1 (+,+) 2 (+,-) 3 (-,+) 4 (-,-)
+    pub(crate) fn body_substr_abstract(has_len: bool, l: usize, quad: u8) {
         unsafe {
-            SS_COLLECT_CALLS += 1;
-            SS_SKIP = w[W_SKIP];
-            SS_TAKE = w[W_TAKE];
-            assert!(SS_COUNT_CALLS == 0 || (w[W_PTR] == SS_PTR && w[W_END] == SS_END), "the slice is taken from a different string than the one that was measured");
+            CH_L = l;
+            CH_POS = 0;
         }
-        String::new()
-    }
-
-    //@ob name=C16.substr.adapter_layout props=C16 strength=complete fns=std::iter::Take,std::iter::Skip,std::str::Chars timeout=200
-    //@ desc="validation of the stub's view of std's adapter structs: for `s.chars().skip(a).take(b)` the four words are (ptr, end, a, b) for every a, b - the layout the from_iter stub relies on"
-    #[cfg_attr(kani, kani::proof)]
-    pub(crate) fn k_c16_substr_adapter_layout() {
-        let s = "ab";
-        let a: usize = kani::any();
-        let b: usize = kani::any();
-        let it = s.chars().skip(a).take(b);
-        let w: [usize; 4] = unsafe { std::mem::transmute_copy(&it) };
-        assert!(std::mem::size_of_val(&it) == 32, "Take<Skip<Chars>> is four words");
-        assert!(w[W_PTR] == s.as_ptr() as usize && w[W_END] == s.as_ptr() as usize + 2, "ptr / end words");
-        assert!(w[W_SKIP] == a && w[W_TAKE] == b, "skip / take words");
-        let c = s.chars();
-        let cw: [usize; 2] = unsafe { std::mem::transmute_copy(&c) };
-        assert!(cw[0] == s.as_ptr() as usize && cw[1] == s.as_ptr() as usize + 2, "Chars is (ptr, end)");
-        kani::cover!(true, "checked");
-    }
-
-    /// has_len: 0 = two operands, 1 = three operands
-    pub(crate) fn body_substr_arith(has_len: bool) {
-        let l: usize = kani::any();
-        unsafe { SS_L = l };
         let start: i64 = kani::any();
         let len: i64 = kani::any();
-        // the concrete string has ONE character in TWO bytes: a body that measures bytes sees 2, not 1
-        let sv = MD::new(Value::String(String::from("\u{e4}")));
+        match quad {
+            1 => kani::assume(start >= 0 && len >= 0),
+            2 => kani::assume(start >= 0 && len < 0),
+            3 => kani::assume(start < 0 && len >= 0),
+            4 => kani::assume(start < 0 && len < 0),
+            _ => {}
+        }
+        let sv = MD::new(Value::String(String::from("\u{e4}\u{e4}\u{e4}\u{e4}\u{e4}")));
         let iv = MD::new(Value::Number(Number::from(start)));
         let lv = MD::new(Value::Number(Number::from(len)));
         let mut items: Vec<&Value> = Vec::with_capacity(3);
@@ -153,43 +153,87 @@ pub(crate) mod verif_string {
         let items = MD::new(items);
         let r = MD::new(substr(&items));
         kani::cover!(true, "returned");
-        assert!(matches!(&*r, Ok(Value::String(_))), "substr(string, integer[, integer]) returns a string for every integer");
-        assert!(unsafe { SS_COLLECT_CALLS } == 1, "exactly one slice is produced");
-        // the character count the spec works with: what the code measured by contract, or - if it never
-        // counted characters - the real character count of the string
-        let n = if unsafe { SS_COUNT_CALLS } > 0 { l } else { 1 };
-        let (s, e) = spec_substr_range(n, start, if has_len { Some(len) } else { None });
-        let sk = unsafe { SS_SKIP };
-        let tk = unsafe { SS_TAKE };
-        // effective slice of skip(sk).take(tk) on n characters
-        let es = if sk < n { sk } else { n };
-        let ee = match es.checked_add(tk) {
-            Some(x) if x < n => x,
-            _ => n,
-        };
-        if e > s {
-            assert!(es == s && ee == e, "substr: the slice is not the characters the statement describes (skip start / from the end, take n / stop n before the end, clamped)");
-        } else {
-            assert!(ee == es, "substr: the slice must be empty here");
+        // the characters are counted once (by contract) and the position is reset for the slice itself
+        let (s, e) = spec_substr_range(l, start, if has_len { Some(len) } else { None });
+        match &*r {
+            Ok(Value::String(out)) => {
+                assert!(out.len() == e - s, "substr: wrong number of characters (start skips / counts from the end, length takes / stops before the end, clamped to the string, all measured in characters)");
+                let mut k = 0;
+                while k < e - s {
+                    assert!(out.as_bytes()[k] == b'a' + (s + k) as u8, "substr: wrong characters selected");
+                    k += 1;
+                }
+            }
+            _ => assert!(false, "substr(string, integer[, integer]) returns a string for every integer"),
         }
     }
-    macro_rules! substr_arith_harness {
-        ($name:ident, $has_len:expr) => {
+    macro_rules! substr_abstract_harness {
+        ($name:ident, $has_len:expr, $l:expr, $quad:expr) => {
             #[cfg_attr(kani, kani::proof)]
-            #[cfg_attr(kani, kani::stub(<std::str::Chars<'_> as std::iter::Iterator>::count, chars_count_stub))]
-            #[cfg_attr(kani, kani::stub(<std::string::String as std::iter::FromIterator<char>>::from_iter, from_iter_stub))]
+            #[cfg_attr(kani, kani::unwind(6))]
+            #[cfg_attr(kani, kani::stub(<std::str::Chars<'_> as std::iter::Iterator>::next, CharsContract::next))]
+            #[cfg_attr(kani, kani::stub(<std::str::Chars<'_> as std::iter::Iterator>::count, CharsContract::count))]
+            #[cfg_attr(kani, kani::stub(<std::str::Chars<'_> as std::iter::Iterator>::advance_by, CharsContract::advance_by))]
+            #[cfg_attr(kani, kani::stub(std::string::String::reserve, string_reserve_stub))]
             #[cfg_attr(kani, kani::stub(std::fmt::format, crate::verif_support::fmt_stub))]
             pub(crate) fn $name() {
-                body_substr_arith($has_len);
+                body_substr_abstract($has_len, $l, $quad);
             }
         };
     }
-    //@ob name=C16.substr.arith.2 harness=k_c16_substr_arith_2 props=C16,C01 strength=complete fns=op::string::substr stubs=3 timeout=300
-    //@ desc="substr(s, i): for EVERY i64 i and EVERY character count, the (skip, take) handed to the std iterator chain selects exactly the characters from i (or from the end for negative i) to the end, clamped; lengths are measured in characters (std chain by contract)"
-    substr_arith_harness!(k_c16_substr_arith_2, false);
-    //@ob name=C16.substr.arith.3 harness=k_c16_substr_arith_3 props=C16,C01 strength=complete fns=op::string::substr stubs=3 timeout=300
-    //@ desc="substr(s, i, n): for EVERY pair of i64 and EVERY character count, the slice is: skip i / count from the end; take n / stop |n| before the end; clamped to the string (std chain by contract)"
-    substr_arith_harness!(k_c16_substr_arith_3, true);
+//@GENERATED-SUBSTR
+    //@ob name=C16.substr.abstract.2.len0.all harness=k_c16_substr_abstract_2_len0_all props=C16,C01 tier=quick strength=bounded bound="a string of 0 characters (abstract: Chars by contract, real Skip/Take/collect); start: EVERY i64 (all 64-bit values of that sign)" fns=op::string::substr stubs=5 timeout=600 group=heavy
+    //@ desc="substr on a 0-character string, for every 64-bit start in the stated sign class: the result is exactly the characters the statement describes (skip / count from the end; take / stop before the end; clamped), counted in characters, never bytes"
+    substr_abstract_harness!(k_c16_substr_abstract_2_len0_all, false, 0, 0);
+    //@ob name=C16.substr.abstract.2.len1.all harness=k_c16_substr_abstract_2_len1_all props=C16,C01 tier=thorough strength=bounded bound="a string of 1 characters (abstract: Chars by contract, real Skip/Take/collect); start: EVERY i64 (all 64-bit values of that sign)" fns=op::string::substr stubs=5 timeout=600 group=heavy
+    //@ desc="substr on a 1-character string, for every 64-bit start in the stated sign class: the result is exactly the characters the statement describes (skip / count from the end; take / stop before the end; clamped), counted in characters, never bytes"
+    substr_abstract_harness!(k_c16_substr_abstract_2_len1_all, false, 1, 0);
+    //@ob name=C16.substr.abstract.2.len2.all harness=k_c16_substr_abstract_2_len2_all props=C16,C01 tier=quick strength=bounded bound="a string of 2 characters (abstract: Chars by contract, real Skip/Take/collect); start: EVERY i64 (all 64-bit values of that sign)" fns=op::string::substr stubs=5 timeout=600 group=heavy
+    //@ desc="substr on a 2-character string, for every 64-bit start in the stated sign class: the result is exactly the characters the statement describes (skip / count from the end; take / stop before the end; clamped), counted in characters, never bytes"
+    substr_abstract_harness!(k_c16_substr_abstract_2_len2_all, false, 2, 0);
+    //@ob name=C16.substr.abstract.2.len3.all harness=k_c16_substr_abstract_2_len3_all props=C16,C01 tier=off strength=bounded bound="a string of 3 characters (abstract: Chars by contract, real Skip/Take/collect); start: EVERY i64 (all 64-bit values of that sign)" fns=op::string::substr stubs=5 timeout=600 group=heavy
+    //@ desc="substr on a 3-character string, for every 64-bit start in the stated sign class: the result is exactly the characters the statement describes (skip / count from the end; take / stop before the end; clamped), counted in characters, never bytes"
+    substr_abstract_harness!(k_c16_substr_abstract_2_len3_all, false, 3, 0);
+    //@ob name=C16.substr.abstract.3.len0.all harness=k_c16_substr_abstract_3_len0_all props=C16,C01 tier=quick strength=bounded bound="a string of 0 characters (abstract: Chars by contract, real Skip/Take/collect); start/length: EVERY i64 (all 64-bit values of that sign)" fns=op::string::substr stubs=5 timeout=600 group=heavy
+    //@ desc="substr on a 0-character string, for every 64-bit start and length in the stated sign class: the result is exactly the characters the statement describes (skip / count from the end; take / stop before the end; clamped), counted in characters, never bytes"
+    substr_abstract_harness!(k_c16_substr_abstract_3_len0_all, true, 0, 0);
+    //@ob name=C16.substr.abstract.3.len1.pp harness=k_c16_substr_abstract_3_len1_pp props=C16,C01 tier=thorough strength=bounded bound="a string of 1 characters (abstract: Chars by contract, real Skip/Take/collect); start/length: start >= 0, length >= 0 (all 64-bit values of that sign)" fns=op::string::substr stubs=5 timeout=600 group=heavy
+    //@ desc="substr on a 1-character string, for every 64-bit start and length in the stated sign class: the result is exactly the characters the statement describes (skip / count from the end; take / stop before the end; clamped), counted in characters, never bytes"
+    substr_abstract_harness!(k_c16_substr_abstract_3_len1_pp, true, 1, 1);
+    //@ob name=C16.substr.abstract.3.len1.pn harness=k_c16_substr_abstract_3_len1_pn props=C16,C01 tier=thorough strength=bounded bound="a string of 1 characters (abstract: Chars by contract, real Skip/Take/collect); start/length: start >= 0, length < 0 (all 64-bit values of that sign)" fns=op::string::substr stubs=5 timeout=600 group=heavy
+    //@ desc="substr on a 1-character string, for every 64-bit start and length in the stated sign class: the result is exactly the characters the statement describes (skip / count from the end; take / stop before the end; clamped), counted in characters, never bytes"
+    substr_abstract_harness!(k_c16_substr_abstract_3_len1_pn, true, 1, 2);
+    //@ob name=C16.substr.abstract.3.len1.np harness=k_c16_substr_abstract_3_len1_np props=C16,C01 tier=off strength=bounded bound="a string of 1 characters (abstract: Chars by contract, real Skip/Take/collect); start/length: start < 0, length >= 0 (all 64-bit values of that sign)" fns=op::string::substr stubs=5 timeout=600 group=heavy
+    //@ desc="substr on a 1-character string, for every 64-bit start and length in the stated sign class: the result is exactly the characters the statement describes (skip / count from the end; take / stop before the end; clamped), counted in characters, never bytes"
+    substr_abstract_harness!(k_c16_substr_abstract_3_len1_np, true, 1, 3);
+    //@ob name=C16.substr.abstract.3.len1.nn harness=k_c16_substr_abstract_3_len1_nn props=C16,C01 tier=thorough strength=bounded bound="a string of 1 characters (abstract: Chars by contract, real Skip/Take/collect); start/length: start < 0, length < 0 (all 64-bit values of that sign)" fns=op::string::substr stubs=5 timeout=600 group=heavy
+    //@ desc="substr on a 1-character string, for every 64-bit start and length in the stated sign class: the result is exactly the characters the statement describes (skip / count from the end; take / stop before the end; clamped), counted in characters, never bytes"
+    substr_abstract_harness!(k_c16_substr_abstract_3_len1_nn, true, 1, 4);
+    //@ob name=C16.substr.abstract.3.len2.pp harness=k_c16_substr_abstract_3_len2_pp props=C16,C01 tier=off strength=bounded bound="a string of 2 characters (abstract: Chars by contract, real Skip/Take/collect); start/length: start >= 0, length >= 0 (all 64-bit values of that sign)" fns=op::string::substr stubs=5 timeout=600 group=heavy
+    //@ desc="substr on a 2-character string, for every 64-bit start and length in the stated sign class: the result is exactly the characters the statement describes (skip / count from the end; take / stop before the end; clamped), counted in characters, never bytes"
+    substr_abstract_harness!(k_c16_substr_abstract_3_len2_pp, true, 2, 1);
+    //@ob name=C16.substr.abstract.3.len2.pn harness=k_c16_substr_abstract_3_len2_pn props=C16,C01 tier=off strength=bounded bound="a string of 2 characters (abstract: Chars by contract, real Skip/Take/collect); start/length: start >= 0, length < 0 (all 64-bit values of that sign)" fns=op::string::substr stubs=5 timeout=600 group=heavy
+    //@ desc="substr on a 2-character string, for every 64-bit start and length in the stated sign class: the result is exactly the characters the statement describes (skip / count from the end; take / stop before the end; clamped), counted in characters, never bytes"
+    substr_abstract_harness!(k_c16_substr_abstract_3_len2_pn, true, 2, 2);
+    //@ob name=C16.substr.abstract.3.len2.np harness=k_c16_substr_abstract_3_len2_np props=C16,C01 tier=off strength=bounded bound="a string of 2 characters (abstract: Chars by contract, real Skip/Take/collect); start/length: start < 0, length >= 0 (all 64-bit values of that sign)" fns=op::string::substr stubs=5 timeout=600 group=heavy
+    //@ desc="substr on a 2-character string, for every 64-bit start and length in the stated sign class: the result is exactly the characters the statement describes (skip / count from the end; take / stop before the end; clamped), counted in characters, never bytes"
+    substr_abstract_harness!(k_c16_substr_abstract_3_len2_np, true, 2, 3);
+    //@ob name=C16.substr.abstract.3.len2.nn harness=k_c16_substr_abstract_3_len2_nn props=C16,C01 tier=off strength=bounded bound="a string of 2 characters (abstract: Chars by contract, real Skip/Take/collect); start/length: start < 0, length < 0 (all 64-bit values of that sign)" fns=op::string::substr stubs=5 timeout=600 group=heavy
+    //@ desc="substr on a 2-character string, for every 64-bit start and length in the stated sign class: the result is exactly the characters the statement describes (skip / count from the end; take / stop before the end; clamped), counted in characters, never bytes"
+    substr_abstract_harness!(k_c16_substr_abstract_3_len2_nn, true, 2, 4);
+    //@ob name=C16.substr.abstract.3.len3.pp harness=k_c16_substr_abstract_3_len3_pp props=C16,C01 tier=off strength=bounded bound="a string of 3 characters (abstract: Chars by contract, real Skip/Take/collect); start/length: start >= 0, length >= 0 (all 64-bit values of that sign)" fns=op::string::substr stubs=5 timeout=600 group=heavy
+    //@ desc="substr on a 3-character string, for every 64-bit start and length in the stated sign class: the result is exactly the characters the statement describes (skip / count from the end; take / stop before the end; clamped), counted in characters, never bytes"
+    substr_abstract_harness!(k_c16_substr_abstract_3_len3_pp, true, 3, 1);
+    //@ob name=C16.substr.abstract.3.len3.pn harness=k_c16_substr_abstract_3_len3_pn props=C16,C01 tier=off strength=bounded bound="a string of 3 characters (abstract: Chars by contract, real Skip/Take/collect); start/length: start >= 0, length < 0 (all 64-bit values of that sign)" fns=op::string::substr stubs=5 timeout=600 group=heavy
+    //@ desc="substr on a 3-character string, for every 64-bit start and length in the stated sign class: the result is exactly the characters the statement describes (skip / count from the end; take / stop before the end; clamped), counted in characters, never bytes"
+    substr_abstract_harness!(k_c16_substr_abstract_3_len3_pn, true, 3, 2);
+    //@ob name=C16.substr.abstract.3.len3.np harness=k_c16_substr_abstract_3_len3_np props=C16,C01 tier=off strength=bounded bound="a string of 3 characters (abstract: Chars by contract, real Skip/Take/collect); start/length: start < 0, length >= 0 (all 64-bit values of that sign)" fns=op::string::substr stubs=5 timeout=600 group=heavy
+    //@ desc="substr on a 3-character string, for every 64-bit start and length in the stated sign class: the result is exactly the characters the statement describes (skip / count from the end; take / stop before the end; clamped), counted in characters, never bytes"
+    substr_abstract_harness!(k_c16_substr_abstract_3_len3_np, true, 3, 3);
+    //@ob name=C16.substr.abstract.3.len3.nn harness=k_c16_substr_abstract_3_len3_nn props=C16,C01 tier=off strength=bounded bound="a string of 3 characters (abstract: Chars by contract, real Skip/Take/collect); start/length: start < 0, length < 0 (all 64-bit values of that sign)" fns=op::string::substr stubs=5 timeout=600 group=heavy
+    //@ desc="substr on a 3-character string, for every 64-bit start and length in the stated sign class: the result is exactly the characters the statement describes (skip / count from the end; take / stop before the end; clamped), counted in characters, never bytes"
+    substr_abstract_harness!(k_c16_substr_abstract_3_len3_nn, true, 3, 4);
+//@END-GENERATED-SUBSTR
 
     // =====================================================================================
     // C16: cat - concatenation of the operands' string forms, in order; strings unchanged.
